@@ -96,7 +96,7 @@ idl_a_demux_feed		(vbi_idl_demux *	dx,
 	spa = 0;
 
 	for (i = 0; i < spa_length; ++i)
-		spa |= vbi_unham8 (buffer[4 + i]) << (4 * i);
+		spa |= vbi_unham8 (buffer[4 + i]) * (1 << (4 * i));
 
 	if (spa < 0) {
 		return FALSE;
